@@ -50,7 +50,7 @@ TtlCase(k) ==
       v == IF r1 % 2 = 0 THEN 4 ELSE 6   r2 == r1 \div 2
       pl == r2 % 2   r3 == r2 \div 2
       ln == Links[(r3 % 3) + 1]  ih == Ihls[(r3 \div 3) + 1]
-  IN [link |-> ln, h |-> WithOpts([BaseHdr(v) EXCEPT !.ttl = t, !.ihl = IF v = 4 THEN ih ELSE 5, !.payload = IF pl = 0 THEN <<>> ELSE <<71>>,
+  IN [link |-> ln, h |-> WithOpts([BaseHdr(v) EXCEPT !.ttl = t, !.ihl = IF v = 4 THEN ih ELSE 5, !.payload = IF pl = 0 THEN <<>> ELSE IF t % 3 = 0 THEN <<22, 3, 1, 0, 5, 1, 0, 0, 1, 0>> ELSE <<71>>,   \* also: what looks like the start of a TLS handshake record
                                                        !.flags = IF (k \div 7) % 2 = 0 THEN SYN ELSE SYN + ACK, !.ack = IF (k \div 7) % 2 = 0 THEN Zero4 ELSE NZ4],
                                    OptArea(StdOpts))]
 
